@@ -300,7 +300,80 @@ def evaluate_streams(rep, cases):
     return bad
 
 
+# ---------------------------------------------------------------- stream framing tie
+# The model cuts a text into parts (Bkl.Stream.splitAt at separator lines).  Compositional check against the
+# real readers, with the real readers themselves as the per-part decoder:
+#     bkl(text)  ==  concatenation over the model's parts of bkl(part)
+# A part contains no separator line, so bkl's own framing is the identity on it.
+
+FRAME_LINES_YAML = ["a: 1", "b: 2", "c: [1, 2]", "---", "--- ", "--- # c", " ---", "----", "...", "", "# comment", "--- {d: 4}", "x: '---'", "-- -",
+                    "---\t", "k: |", "  ---", "  text", "e: 5"]
+FRAME_LINES_TOML = ["a = 1", "b = 2", "---", "+++", "--- ", " +++", "++++", "", "# comment", "[t]", "x = \"---\"", "+++ ", "e = 5"]
+
+
+def frame_case(rng):
+    fmt = rng.choice(["yaml", "toml"])
+    pool = FRAME_LINES_YAML if fmt == "yaml" else FRAME_LINES_TOML
+    lines = [rng.choice(pool) for _ in range(rng.randint(0, 7))]
+    return {"format": fmt, "lines": lines, "final_newline": rng.random() < 0.8}
+
+
+def evaluate_frames(rep, cases):
+    mres = run_model([{"op": "ssplit", "id": i, "format": c["format"], "lines": c["lines"]} for i, c in enumerate(cases)])
+    ops, index = [], []
+
+    def text_of(lines, final):
+        return "\n".join(lines) + ("\n" if final and lines else "")
+    for i, c in enumerate(cases):
+        ops.append({"op": "decode", "id": len(ops), "format": c["format"], "text": base64.b64encode(text_of(c["lines"], c["final_newline"]).encode()).decode()})
+        index.append((i, None))
+        parts = (mres.get(i) or {}).get("ok")
+        if parts is None:
+            continue
+        for pi, p in enumerate(parts):
+            # the last part keeps the text's final-newline status; inner parts end where the separator line began
+            final = c["final_newline"] if pi == len(parts) - 1 else True
+            ops.append({"op": "decode", "id": len(ops), "format": c["format"], "text": base64.b64encode(text_of(p, final).encode()).decode()})
+            index.append((i, pi))
+    go = run_go(ops)
+    whole, bypart = {}, {}
+    for oi, (i, pi) in enumerate(index):
+        if pi is None:
+            whole[i] = go.get(oi) or {}
+        else:
+            bypart.setdefault(i, {})[pi] = go.get(oi) or {}
+    bad = 0
+    for i, c in enumerate(cases):
+        rep.case(["frame", c], True)
+        rep.traces += 1
+        parts = (mres.get(i) or {}).get("ok")
+        w = whole.get(i, {})
+        d = None
+        if parts is None:
+            d = f"MODEL-PROBLEM {mres.get(i)}"
+        else:
+            ps = [bypart.get(i, {}).get(pi, {}) for pi in range(len(parts))]
+            rep.count(f"frame:{c['format']}:parts{min(len(parts), 4)}")
+            if any("docs" not in p for p in ps):
+                if "docs" in w:
+                    d = "bkl reads the whole text but rejects one of the parts the model cuts it into"
+            elif "docs" not in w:
+                d = f"bkl rejects the whole text ({w.get('err')}) but reads every part the model cuts it into"
+            else:
+                cat = [x for p in ps for x in p["docs"]]
+                if cat != w["docs"]:
+                    d = f"bkl reads {len(w['docs'])} document(s) from the text and {len(cat)} from the model's parts, or different ones"
+        if d:
+            bad += 1
+            if len(rep.violations) < 5:
+                rep.disagreements_checked += 1
+                rep.violation(f"stream framing ({c['format']}): {d}", {"case": {"frame": c}, "model_parts": parts, "impl_whole": w})
+    return bad
+
+
 def run(rep, n, seed_offset=4242):
+    rng3 = random.Random(rep.seed + seed_offset + 2)
+    evaluate_frames(rep, [frame_case(rng3) for _ in range(max(100, n // 4))])
     rng2 = random.Random(rep.seed + seed_offset + 1)
     evaluate_streams(rep, [ystream_case(rng2) for _ in range(max(50, n // 6))])
     rng = random.Random(rep.seed + seed_offset)
